@@ -521,6 +521,7 @@ def run(tier):
                     res.instance("C20.R5", "%s:%s %s %s under %s" % (fn.name, ln, kind, ent, want), ok, finding=f_)
     res.floor("C20.R5", 4)
     rule_R8(res, prog)
+    rule_R9(res, prog)
     return res.finish()
 
 
@@ -597,3 +598,62 @@ def rule_R8(res, prog):
                              "reference of that entry and wipes it although the connection never held it" % (fo.relfile, ln), file=fo.relfile, line=ln)
             res.instance(rid, "connHoldsCacheEntry:%s `holds an entry` only under the reference mark" % ln, ok, finding=f_)
     res.floor(rid, 5)
+
+
+
+def rule_R9(res, prog):
+    """'every outcome equals some sequential order of the sessions': getTicketKeys releases g_sessTicketLock around the
+    application's ticket callback, so when it comes back the shared key list may have grown by OTHER sessions' keys as well.
+    The key handed on after the callback (*keys = lkey) is therefore found by SEARCHING the list for the requested name: on
+    every path from the re-acquisition of the lock to that store a name comparison (memcmp on lkey->name) that lies on a
+    loop is passed.  Taking the list tail and comparing once refuses a valid ticket whenever another session's callback
+    loaded its key in the window."""
+    from sa import cfgutil as cu
+    rid = "C20.R9"
+    res.rule(rid, "after the ticket callback the requested key is searched for by name in the shared list (not assumed at its tail)")
+    lst = prog.by_name.get("getTicketKeys")
+    if not lst:
+        res.floor(rid, 0)
+        return
+    fn = lst[0]
+    succ = {b["id"]: [sc.get("b") for sc in b["succ"] if sc.get("b") is not None] for b in fn.blocks}
+
+    def reach(src):
+        seen, st = set(), list(succ.get(src, []))
+        while st:
+            q = st.pop()
+            if q in seen:
+                continue
+            seen.add(q)
+            st.extend(succ.get(q, []))
+        return seen
+    cyc = set(b["id"] for b in fn.blocks if b["id"] in reach(b["id"]))
+    loop_cmp = set()
+    for b in fn.blocks:
+        if b["id"] not in cyc:
+            continue
+        for i, ln, x in cu.block_exprs(b):
+            if "memcmp(lkey->name" in cu.ftext(x).replace("__builtin_", ""):
+                loop_cmp.add(id(x))
+    locks = cu.find_sites(fn, lambda m: m.get("k") == "call" and m.get("fn") == "psLockMutex")
+    cb = cu.find_sites(fn, lambda m: m.get("k") == "call" and not m.get("fn") and "ticket_cb" in cu.ftext(m))
+    n = 0
+    for (bid, idx, ln, node) in locks:
+        # the re-acquisition: a lock call that the callback call reaches
+        if not any(bid in reach(cbid) or (bid == cbid) for (cbid, ci, cl, cn) in cb):
+            continue
+        n += 1
+
+        def hands_on(x):
+            return any(m.get("k") == "bin" and m["op"] == "=" and cu.ftext(strip(m["l"]) or {}).replace("(", "").replace(")", "") == "*keys" and
+                       (strip(m["r"]) or {}).get("k") == "var" for m in walk(x))
+        esc = cu.escapes(fn, (bid, idx), lambda x: id(x) in loop_cmp, target_expr=hands_on)
+        f_ = None
+        if esc is not None:
+            f_ = Finding(PROP, rid, fn.name, "key taken from the list tail after the unlocked callback",
+                         "%s:%s getTicketKeys(): after g_sessTicketLock is re-acquired behind the ticket callback, *keys = lkey is reached (via lines "
+                         "%s) without a name comparison inside a search loop: the key is taken from a fixed position (the tail), so when another "
+                         "session's callback loaded ITS key in the unlocked window this session refuses its own valid ticket - an outcome no "
+                         "sequential order of the two sessions gives" % (fn.relfile, ln, [p_[1] for p_ in esc[-6:]]), file=fn.relfile, line=ln)
+        res.instance(rid, "getTicketKeys:%s key handed on after the callback is found by a name search" % ln, esc is None, finding=f_)
+    res.floor(rid, 1)
